@@ -95,6 +95,33 @@ Theorem C17_prefix_size_equal :
 Proof. exact prefix_size_equal. Qed.
 Print Assumptions C17_prefix_size_equal.
 
+(* In general (the root may gain a step) the size grows by at most 9 bytes plus
+   one byte per entry of the r128 rank index of InnerPrefixes.PresenceBM, of
+   which there are about (inner nodes)/128: this is the true bound that replaces
+   "a few bytes"; and the size never shrinks (C17_prefix_never_shrinks). *)
+Theorem C17_prefix_delta_bound :
+  forall (o : opts) (P : key) (keys : list key) (T T' : trie),
+    o_inner o = false -> o_leaf o = false ->
+    build o keys None = Ok T -> build o (map (app P) keys) None = Ok T' ->
+    (N.of_nat (length keys) < 67108864)%N ->
+    (marshal_size T' <= marshal_size T + N.of_nat (presence_rank_entries T) + 9)%N.
+Proof. exact prefix_delta_bound. Qed.
+Print Assumptions C17_prefix_delta_bound.
+
+Theorem C17_prefix_never_shrinks :
+  forall (o : opts) (P : key) (keys : list key) (T T' : trie),
+    o_inner o = false -> o_leaf o = false ->
+    build o keys None = Ok T -> build o (map (app P) keys) None = Ok T' ->
+    (N.of_nat (length keys) < 67108864)%N ->
+    (marshal_size T <= marshal_size T')%N.
+Proof. exact prefix_never_shrinks. Qed.
+Print Assumptions C17_prefix_never_shrinks.
+
+Theorem C17_rank_entries :
+  forall r, 128 * length (rank128 0 (chunks64 (map has_step (inners r)))) <= inner_count r + 191.
+Proof. exact presence_rank_entries_le. Qed.
+Print Assumptions C17_rank_entries.
+
 (* The clause "changes the size by at most a few bytes" is REFUTED as a universal
    statement when the root has no step: the root gains a step entry and every
    entry of the r128 rank index of InnerPrefixes.PresenceBM grows by one; entries
